@@ -9,7 +9,7 @@ COQ_EXEC = ['exec.X_perdict']
 COQ_IMPORTS = 'From PB Require Import model.M_join model.M_perdict.\n'
 COQ_PRELUDE = ''
 PER_FILE = 500
-CASE_TIMEOUT = 5
+CASE_TIMEOUT = 20
 RULE = ('cases: 1-4 named inputs, each a scalar or a unique-key table over 1 or 2 key columns (`on` in any order, table columns in any order; keys from a small universe of strings / ints / '
         'floats / None so that overlap, disjointness and emptiness all occur; 1 vs 1.0 across tables), value column named after the input, '
         '"data", or a single other column, or with extra columns; any subset of inputs named in defaults (values 0-8 or None); previously '
@@ -37,12 +37,17 @@ TECHNIQUE = 'Coq proof (lists, filter/map, NoDup, StronglySorted) over an execut
 
 PAST = datetime.datetime(2000, 1, 1); FUTURE = datetime.datetime(2999, 1, 1)
 EXPV = {'past': PAST, 'future': FUTURE, 'none': None}
+ECLASS = {'past': 'past', 'future': 'future', 'none': 'none', 'past2': 'past', 'future2': 'future'}    # past2 / future2: one microsecond before / after today 00:00
+def expv(e):
+    if e in EXPV: return EXPV[e]
+    from pyg_base import dt
+    return dt(0) + datetime.timedelta(microseconds=-1 if e == 'past2' else 1)
 
 # ------------------------------------------------------------------ Coq side
 def coq_pv(v): return 'VNone' if v is None else '(VInt (%d))' % v
 def coq_key(k): return '[' + '; '.join(coq_cell(c) for c in k) + ']'
 def coq_rows(rows): return '[%s]' % '; '.join('(%s, %s)' % (coq_key(k), coq_pv(v)) for k, v in rows)
-def coq_runner(case): return 'run_perdictN' if case.get('outputs') else 'run_perdict'
+def coq_runner(case): return 'run_pjoin' if case.get('kind') == 'pjoin' else 'run_perdictN' if case.get('outputs') else 'run_perdict'
 def coq_case(case):
     args = []
     for a in case['args']:
@@ -56,10 +61,11 @@ def coq_case(case):
     else:
         dat = 'None' if case['data'] is None else '(Some %s)' % coq_rows(case['data']['rows'])
     x = case['expiry']
-    E = {'past': 'EPast', 'future': 'EFuture', 'none': 'ENone'}
+    E = {'past': 'EPast', 'future': 'EFuture', 'none': 'ENone', 'past2': 'EPast', 'future2': 'EFuture'}
     if x is None: xs = 'XAbsent'
     elif 'scalar' in x: xs = '(XScalar %s)' % E[x['scalar']]
     else: xs = '(XTable [%s])' % '; '.join('(%s, %s)' % (coq_key(k), E[e]) for k, e in x['rows'])
+    if case.get('kind') == 'pjoin': return '[%s]' % '; '.join(args)
     return '([%s], %s, %s)' % ('; '.join(args), dat, xs)
 
 def cache_list(case):
@@ -67,18 +73,20 @@ def cache_list(case):
     if case.get('outputs'):
         return [(o, (case.get('caches') or {}).get(o)) for o in case['outputs']]
     return [('data', case['data'])]
+def fval(z): return None if z % 7 == 3 else z          # some results are None
 def fvals(case, args):
     """what f returns on args, per output"""
     if case.get('outputs'):
-        return [fcode(args) + 10000 * (i + 1) for i in range(len(case['outputs']))]
-    return [fcode(args)]
+        return [fval(fcode(args) + 10000 * (i + 1)) for i in range(len(case['outputs']))]
+    return [fval(fcode(args))]
 
 # ------------------------------------------------------------------ implementation side
 def impl_setup():
-    global dictable, perdictable
+    global dictable, perdictable, pjoin
     import logging
     logging.disable(logging.CRITICAL)
     from pyg_base import dictable, perdictable
+    from pyg_base._perdictable import join as pjoin
 
 def digit(v): return 9 if v is None else v
 def fcode(vals):
@@ -98,7 +106,7 @@ def mk_table(on, rows, valcol, vals, extra=None, order=0):
     return dictable({c: cols[c] for c in names})
 
 def build_inputs(case):
-    on = case['on']; inputs = {}; defaults = {}
+    on = case['on']; inputs = {}; defaults = {}; renames = {}
     for a in case['args']:
         n = a['name']
         if 'default' in a: defaults[n] = a['default']['v']
@@ -111,6 +119,7 @@ def build_inputs(case):
             if lay == 'named': t = mk_table(on, a['rows'], n, vals, order=o)
             elif lay == 'data': t = mk_table(on, a['rows'], 'data', vals, order=o)
             elif lay == 'other': t = mk_table(on, a['rows'], 'zz_' + n, vals, order=o)
+            elif lay == 'renamed': t = mk_table(on, a['rows'], 'val_' + n, vals, {'zz1': 77}, order=o); renames[n] = 'val_' + n
             else: t = mk_table(on, a['rows'], n, vals, {'zz1': 77, 'zz2': 'q'}, order=o)
             inputs[n] = t
     for o, c in (cache_list(case) if case.get('outputs') else []):
@@ -122,9 +131,9 @@ def build_inputs(case):
         inputs['data'] = mk_table(on, case['data']['rows'], 'data', [v for _, v in case['data']['rows']], order=case['data'].get('order', 0))
     x = case['expiry']
     if x is not None:
-        if 'scalar' in x: inputs['expiry'] = EXPV[x['scalar']]
-        else: inputs['expiry'] = mk_table(on, x['rows'], x.get('layout', 'data'), [EXPV[e] for _, e in x['rows']], order=x.get('order', 0))
-    return inputs, (defaults if (defaults or case.get('defaults_given')) else None)
+        if 'scalar' in x: inputs['expiry'] = expv(x['scalar'])
+        else: inputs['expiry'] = mk_table(on, x['rows'], x.get('layout', 'data'), [expv(e) for _, e in x['rows']], order=x.get('order', 0))
+    return inputs, (defaults if (defaults or case.get('defaults_given')) else None), (renames or None)
 
 def obs_key(k): return [enc(c, False) for c in k]
 def obs_pv(v):
@@ -134,11 +143,13 @@ def obs_pv(v):
 
 # ---- the oracle: straight from the property text
 def kcanon(k):
-    """key up to == (1 == 1.0)"""
-    return tuple(('N',) if c is None else ('n', float(c)) if isinstance(c, (int, float)) else ('s', c) for c in k)
+    """key up to == (1 == 1.0), exact for huge ints"""
+    from fractions import Fraction
+    return tuple(('N',) if c is None else ('n', Fraction(c)) if isinstance(c, (int, float)) else ('d', c) if isinstance(c, datetime.datetime) else ('s', c) for c in k)
 def korder(k):
-    """cmp order of a key tuple: None < numbers < strings, then by value"""
-    return tuple((0, 0) if c is None else (1, float(c)) if isinstance(c, (int, float)) else (2, c) for c in k)
+    """cmp order of a key tuple: None < datetimes < numbers < strings (rank of the type name), then by value"""
+    from fractions import Fraction
+    return tuple((0, 0) if c is None else (2, Fraction(c)) if isinstance(c, (int, float)) else (1, c) if isinstance(c, datetime.datetime) else (3, c) for c in k)
 def pykey(k):
     nans = {}
     return tuple(py_cell(c, nans) for c in k)
@@ -175,12 +186,43 @@ def expected(case):
         if x is None: e = 'none'
         elif 'scalar' in x: e = x['scalar']
         else: e = xt.get(c, 'none')
-        runs = (not all_supplied) or e != 'past'
+        runs = (not all_supplied) or ECLASS[e] != 'past'
         rows.append((c, args, runs, [m.get(c) if m is not None else None for m in cmaps]))
     return 'table', rows
 
+def impl_pjoin(case, inputs, defaults, renames):
+    """join(inputs, on, renames, defaults) called directly: the table perdictable evaluates row by row"""
+    on = case['on']; names = [a['name'] for a in case['args']]
+    try:
+        r = pjoin(inputs, on=(on[0] if case.get('on_str') and len(on) == 1 else list(on)), renames=renames, defaults=defaults)
+    except Exception as e:
+        return {'status': err_name(e), 'obs': ['ERR', err_name(e)], 'viol': 'join raised %s: %s' % (type(e).__name__, str(e)[:150])}
+    kind, exp = expected(case)
+    if not isinstance(r, dictable):
+        return {'status': 'ok', 'obs': ['ERR', 'shape'], 'viol': 'join returned a %s' % type(r).__name__}
+    keycols = [] if kind == 'scalar' else on
+    if sorted(r.keys()) != sorted(keycols + names):
+        return {'status': 'ok', 'obs': ['ERR', 'columns'], 'viol': 'join columns %s, expected the key columns and one column per input %s' % (sorted(r.keys()), sorted(keycols + names))}
+    got = [(tuple(r[c][i] for c in keycols), [r[n][i] for n in names]) for i in range(len(r))]
+    obs = ['pjoin', [[obs_key(k), [obs_pv(v) for v in a]] for k, a in got]]
+    viol = None
+    if kind == 'scalar':
+        if [a for _, a in got] != [exp]: viol = 'all inputs are scalars: expected the single row %s, got %s' % (exp, got)
+    else:
+        gk = [kcanon(k) for k, _ in got]; ek = [c for c, _, _, _ in exp]
+        if sorted(gk, key=repr) != sorted(ek, key=repr):
+            viol = 'join keys %s, expected the keys present in every table input without default: %s' % (gk, ek)
+        elif gk != ek:
+            viol = 'join rows are not sorted by key: %s' % gk
+        else:
+            for (c, args, _, _), (k, a) in zip(exp, got):
+                if a != args: viol = 'join row %s holds %s, expected %s (table value, else default, scalars broadcast)' % (k, a, args); break
+    return {'status': 'ok', 'obs': obs, 'viol': viol}
+
 def impl(case):
-    inputs, defaults = build_inputs(case)
+    inputs, defaults, renames = build_inputs(case)
+    if case.get('kind') == 'pjoin':
+        return impl_pjoin(case, inputs, defaults, renames)
     names = [a['name'] for a in case['args']]
     outs = case.get('outputs')
     on = case['on']
@@ -192,7 +234,12 @@ def impl(case):
     src = 'lambda %s: rec((%s), (%s,))' % (', '.join(names + ['%s=None' % c for c in on]), ''.join(c + ',' for c in on), ', '.join(names))
     f = eval(src, {'rec': rec})
     if outs: f.output = list(outs)          # a function declared with named outputs: handled by _dict_output
-    p = perdictable(f, on=list(on), defaults=defaults)
+    p = perdictable(f, on=(on[0] if case.get('on_str') and len(on) == 1 else list(on)), defaults=defaults, renames=renames)
+    # signature extension: the lifted function also accepts expiry and one argument per output (the previously computed values)
+    spec_args = list(p.fullargspec.args)
+    missing = [n for n in names + ['expiry'] + (list(outs) if outs else ['data']) if n not in spec_args]
+    if missing:
+        return {'status': 'ok', 'obs': ['ERR', 'signature'], 'viol': 'the lifted signature %s lacks %s' % (spec_args, missing)}
     try:
         r = p(**inputs)
     except Exception as e:
@@ -225,7 +272,7 @@ def impl(case):
             res = ['dscalar', [obs_pv(v) for v in vals]]
         else:
             return {'status': 'ok', 'obs': ['ERR', 'mixed'], 'viol': 'outputs are a mix of tables and values: %r' % [type(v).__name__ for v in vals]}
-        scalar_res = ['dscalar', fvals(case, exp)] if case_scalar else None
+        scalar_res = ['dscalar', [obs_pv(v) for v in fvals(case, exp)]] if case_scalar else None
     else:
         if isinstance(r, dictable):
             if case['data'] is not None and r is inputs.get('data'):
@@ -236,11 +283,11 @@ def impl(case):
                     return {'status': 'ok', 'obs': ['ERR', 'columns'], 'viol': viol}
                 got_rows = [(tuple(r[c][i] for c in on), [r['data'][i]]) for i in range(len(r))]
                 res = ['table', [[obs_key(k), obs_pv(v[0])] for k, v in got_rows]]
-        elif r is None:
+        elif r is None and not case_scalar:
             res = 'None'
         else:
             res = ['scalar', obs_pv(r)]
-        scalar_res = ['scalar', fcode(exp)] if case_scalar else None
+        scalar_res = ['scalar', obs_pv(fvals(case, exp)[0])] if case_scalar else None
     # ---- oracle (both paths)
     if kind == 'scalar':
         if res != scalar_res:
@@ -300,7 +347,7 @@ def shape(case):
         dat = 'D%d/%d' % (sum(1 for _, c in cl if c is not None), len(cl))
     else:
         dat = 'data' if case['data'] is not None else '-'
-    return '%s:n%d:t%d:d%d:on%d:%s:%s' % (case.get('stream', '?'), len(case['args']), t, d, len(case['on']), dat,
+    return '%s%s:n%d:t%d:d%d:on%d:%s:%s' % ('pjoin:' if case.get('kind') == 'pjoin' else '', case.get('stream', '?'), len(case['args']), t, d, len(case['on']), dat,
                                           '-' if x is None else 'xs' if 'scalar' in x else 'xt')
 def shrink(case):
     if case.get('stream') == 'seed': return
@@ -320,10 +367,12 @@ def shrink(case):
     if case['expiry'] is not None: yield dict(case, expiry=None)
 
 # ------------------------------------------------------------------ generation
-UNI1 = [[['s', 'x']], [['s', 'y']], [['s', 'z']], [['s', 'w']], [['i', 1]], [['i', 2]], [None], [['s', 'ab']]]
+from props.c02 import D1, D3, D5
+UNI1 = [[['s', 'x']], [['s', 'y']], [['s', 'z']], [['s', 'w']], [['i', 1]], [['i', 2]], [None], [['s', 'ab']],
+        [['d', D1]], [['d', D3]], [['d', D5]], [['i', 2**53]], [['i', 2**53 + 1]], [['x', (0.1).hex()]], [['s', '']], [['s', '\u00e9']]]
 def key_variant(rng, k):
     """the same key spelled as an == value of another type (1 vs 1.0)"""
-    return [['f', 2 * c[1]] if (c is not None and c[0] == 'i' and rng.random() < 0.3) else c for c in k]
+    return [['f', 2 * c[1]] if (c is not None and c[0] == 'i' and abs(c[1]) < 2**52 and rng.random() < 0.3) else c for c in k]
 def universe(rng, nk):
     if nk == 1:
         return rng.sample(UNI1, rng.choice([3, 4, 5, 6]))
@@ -344,11 +393,11 @@ def rand_case(rng, stream='rand'):
     uni = universe(rng, nk)
     n = rng.choice([1, 2, 2, 3, 3, 4])
     args = []
-    for name in ['a', 'b', 'c', 'd'][:n]:
+    for name in rng.choice([['a', 'b', 'c', 'd'], ['a', 'b', 'c', 'd'], ['price', 'amount_2', 'Zeta', 'x1'], ['zz', 'm2', 'b', 'A']])[:n]:
         if rng.random() < 0.3:
             a = {'name': name, 'kind': 'scalar', 'v': rand_pv(rng)}
         else:
-            a = {'name': name, 'kind': 'table', 'rows': rand_rows(rng, uni, rand_pv), 'layout': rng.choice(['named', 'named', 'data', 'other', 'extra']), 'order': rng.choice([0, 0, 1, 2])}
+            a = {'name': name, 'kind': 'table', 'rows': rand_rows(rng, uni, rand_pv), 'layout': rng.choice(['named', 'named', 'data', 'other', 'extra', 'renamed']), 'order': rng.choice([0, 0, 1, 2])}
         if rng.random() < 0.35:
             a['default'] = {'v': rand_pv(rng)}
         args.append(a)
@@ -358,9 +407,9 @@ def rand_case(rng, stream='rand'):
         case['data'] = {'rows': rand_rows(rng, uni, lambda g: g.choice([None, 500, 600, 700])), 'order': rng.choice([0, 1, 2])}
     r = rng.random()
     if r < 0.45:
-        case['expiry'] = {'rows': rand_rows(rng, uni, lambda g: g.choice(['past', 'past', 'future', 'none'])), 'layout': rng.choice(['data', 'expiry']), 'order': rng.choice([0, 1, 2])}
+        case['expiry'] = {'rows': rand_rows(rng, uni, lambda g: g.choice(['past', 'past', 'future', 'none', 'past2', 'future2'])), 'layout': rng.choice(['data', 'expiry']), 'order': rng.choice([0, 1, 2])}
     elif r < 0.6:
-        case['expiry'] = {'scalar': rng.choice(['past', 'future', 'none'])}
+        case['expiry'] = {'scalar': rng.choice(['past', 'future', 'none', 'past2', 'future2'])}
     if rng.random() < 0.1: case['defaults_given'] = True
     if rng.random() < 0.4:
         # dict-output path: f declared with named outputs, one cache per output (each supplied or not)
@@ -372,6 +421,26 @@ def rand_case(rng, stream='rand'):
                 caches[o] = {'rows': rand_rows(rng, uni, lambda g, i=i: g.choice([None, 500 + i, 600 + i, 700 + i])),
                              'layout': rng.choice(['named', 'named', 'data', 'other']), 'order': rng.choice([0, 1, 2])}
         case['outputs'] = outs; case['caches'] = caches; case['data'] = None
+    if nk == 1 and rng.random() < 0.3: case['on_str'] = True          # on='k' instead of on=['k']
+    if rng.random() < 0.12:
+        # join(inputs, on, renames, defaults) observed directly
+        case['kind'] = 'pjoin'; case['data'] = None; case['expiry'] = None; case.pop('outputs', None); case.pop('caches', None)
+    return case
+
+def large_case(rng):
+    """tables of 60-130 keys (ints, strings, a date, None): long sorts and joins"""
+    n = rng.randrange(60, 131)
+    uni = [[['i', i]] for i in range(n // 2)] + [[['s', 'k%d' % i]] for i in range(n // 2)] + [[None], [['d', D1]]]
+    def rows(p, val):
+        ks = [k for k in uni if rng.random() < p]; rng.shuffle(ks)
+        return [[k, val(rng)] for k in ks]
+    args = [{'name': 'a', 'kind': 'table', 'rows': rows(0.9, rand_pv), 'layout': 'named'},
+            {'name': 'b', 'kind': 'table', 'rows': rows(0.7, rand_pv), 'layout': rng.choice(['data', 'other'])}]
+    if rng.random() < 0.5: args[1]['default'] = {'v': rand_pv(rng)}
+    case = {'stream': 'large', 'on': ['k'], 'args': args, 'data': {'rows': rows(0.5, lambda g: g.choice([None, 500, 600]))},
+            'expiry': {'rows': rows(0.5, lambda g: g.choice(['past', 'future', 'none', 'past2'])), 'layout': 'data'}}
+    if rng.random() < 0.4:
+        case['outputs'] = ['p', 'q']; case['caches'] = {'p': case['data'], 'q': {'rows': rows(0.6, lambda g: g.choice([None, 501]))}}; case['data'] = None
     return case
 
 def exhaustive():
@@ -405,4 +474,5 @@ def gen_cases(rng, tier):
     cases = [rand_case(rng) for _ in range(2500 if q else 30000)]
     ex = exhaustive()
     cases.extend(rng.sample(ex, 600) if q else ex)
+    cases.extend(large_case(rng) for _ in range(8 if q else 60))
     return cases
